@@ -368,7 +368,7 @@ def run_translator_validation(item, ns):
             "hex2int": [], "floor": [], "allzeros": ["hex2bin", "bin2int", "data"], "is_icao_assigned": ["hex2int"]}
     helpers = ["char_to_int", "int_to_char"]
     same_src = [f for f in deps if all(cur.get(g) == old.get(g) and g in cur for g in [f] + deps[f] + helpers)]
-    spec = importlib.util.spec_from_file_location("c_common_prebuilt", so[0])
+    spec = importlib.util.spec_from_file_location("c_common", so[0])
     try:
         cc = importlib.util.module_from_spec(spec)
         spec.loader.exec_module(cc)
